@@ -17,6 +17,7 @@ from vf import common, trace
 LEVEL = "proof"
 
 U63 = 1 << 63
+U64 = 1 << 64
 HDR = trace.STREAM_HEADER
 
 
@@ -46,15 +47,16 @@ def spec_pre(evs):
     -> (structure_ok, reason, need) ; need = smallest -n for which every region's proper
     position is inside the look-back window (0 when no region has a body).
     Regions: OU[ body OU], body = events up to the first OU].  Outside bodies the clocks
-    never decrease; body events are not later than their closing marker; clocks fit int64."""
+    never decrease; body events are not later than their closing marker.  Clocks are uint64 and are
+    compared as such by every part of the tool (cmp_ev too since /repo f327c17)."""
     need = 0
     last = 0
     i = 0
     n = len(evs)
     while i < n:
         e = evs[i]
-        if not (0 <= e["clock"] < U63):
-            return False, "clock-not-int64", None
+        if not (0 <= e["clock"] < U64):
+            return False, "clock-not-uint64", None
         if e["clock"] < last:
             return False, "out-of-order-outside-region", None
         last = e["clock"]
@@ -68,11 +70,9 @@ def spec_pre(evs):
             return False, "unterminated-region", None
         body = evs[i + 1:j]
         t = evs[j]
-        for b in body:
-            if not (0 <= b["clock"] < U63):
-                return False, "clock-not-int64", None
-        if not (0 <= t["clock"] < U63):
-            return False, "clock-not-int64", None
+        for b in body + [t]:
+            if not (0 <= b["clock"] < U64):
+                return False, "clock-not-uint64", None
         if t["clock"] < last:
             return False, "out-of-order-outside-region", None
         if any(b["clock"] > t["clock"] for b in body):
@@ -242,12 +242,20 @@ class Gen:
         for _ in range(r.choice([0, 1, 3])):
             cur += r.choice(steps)
             evs.append(self.ev(cur))
-        if flaw == "bigclock":
-            k = r.below(len(evs))
-            evs[k]["clock"] = U63 + r.below(1000) if r.chance(1, 2) else (1 << 64) - 1 - r.below(3)
         cur += r.choice(steps)
         if hdr:
-            evs.append(mk("OHe", max(cur, max(e["clock"] for e in evs)) if flaw != "bigclock" else cur))
+            evs.append(mk("OHe", max(cur, max(e["clock"] for e in evs))))
+        if flaw == "bigclock":
+            if r.chance(2, 3):
+                # shift the whole stream so that its clocks lie on both sides of 2^63 (or all above): still inside the precondition
+                cl = sorted(e["clock"] for e in evs)
+                pivot = r.choice(cl) if r.chance(3, 4) else cl[0]
+                for e in evs:
+                    e["clock"] += U63 - pivot
+                feats.add("clocks-straddle-2^63")
+            else:
+                k = r.below(len(evs))
+                evs[k]["clock"] = U63 + r.below(1000) if r.chance(1, 2) else U64 - 1 - r.below(3)
         if any(e["jumbo"] is not None for e in evs):
             feats.add("jumbo")
         cl = [e["clock"] for e in evs]
@@ -373,6 +381,8 @@ def emu_ok(s):
     if len(evs) < 2 or evs[0]["mcv"] != "OHx" or evs[-1]["mcv"] != "OHe":
         return False
     c0, c1 = evs[0]["clock"], evs[-1]["clock"]
+    if c1 >= U63:
+        return False                    # stream_step reads clocks as int64
     for e in evs[1:-1]:
         if e["mcv"][:2] != "OU" or not (c0 <= e["clock"] <= c1):
             return False
@@ -384,7 +394,7 @@ def emu_ok(s):
 def run(chk):
     chk.trusted_base = common.BASE_TRUST + [
         "hand model coq/Tools/WinsortDefs.v of src/emu/ovnisort.c (ring = last n-1 events, S/U/X machine, find_destination, "
-        "sort of the window, ring_check, -c) tied to the working tree by byte-for-byte comparison of stream.obs and exit status "
+        "sort of the window by uint64 clock, ring_check, -c) tied to the working tree by byte-for-byte comparison of stream.obs and exit status "
         "on generated traces",
         "libc qsort assumed STABLE for the sizes used (glibc: merge sort while the temporary array fits); modelled as insertion "
         "sort; any two stable sorts agree; re-checked by the byte comparison on every run (equal clocks in every window class)",
